@@ -266,7 +266,8 @@ SCHEMA_RULE = ("A: every history of <= MaxLen public mutator calls of RSForm gen
                "cycling dependencies; 'kinds' every constituent kind incl. functions, calls, axioms, structures, ill-typed / unparsable / "
                "dangling definitions; 'names' renamings with prefix names, chains and mentions in definitions, conventions, references; "
                "'texts' X1, D1, D2 created by script, then every sequence of SetTerm / SetText / SetAlias-with-substitution / Erase that builds, re-points, renames and "
-               "breaks chains of references term <- term <- definition text), "
+               "breaks chains of references term <- term <- definition text, with other word forms than the nominal one and two references glued together; "
+               "'proj' X1, D1 := X1 x B(X1), D2 := Pr1(D1) by script, then definitions that differ only in the index of a projection), "
                "replayed on a real RSForm with the identifier hook; after the last call the projected state is compared with the "
                "specification's content and from-scratch Analysis, with a copy reloaded from JSON, and the C09 invariants are evaluated "
                "after every call. non-trivial = history of >= 2 calls; distinct = distinct history. ")
@@ -297,12 +298,12 @@ def plan_C09(ctx):
 def plan_C07(ctx):
     ctx.assumptions = ["from-scratch analysis is (i) Schema.tla's Analysis (least fixpoint over RSTyping) and (ii) a copy reloaded from the saved document",
                        "resolved term / definition texts are compared only when term references are acyclic"]
-    schema_plan(ctx, ["C07"], ["7a", "7b", "7t", "9", "8"], trace=True)
+    schema_plan(ctx, ["C07"], ["7a", "7b", "7t", "7p", "9", "8"], trace=True)
 
 
 def plan_C08(ctx):
     ctx.assumptions = ["schema-level clause: content after SetAliasFor / ResetAliases / re-issuing InsertCopy equals the specification's renamed content exactly (definitions, conventions, reference texts)"]
-    schema_plan(ctx, ["C08", "C07"], ["8"])
+    schema_plan(ctx, ["C08", "C07"], ["8", "7t"])
     # text level: the translation functions themselves (every renaming goes through them)
     ctx.assumptions.append("text-level clause: rslang::TranslateRS / SubstituteGlobals on expressions and ManagedText::TranslateRaw on texts with references, "
                            "for maps of one or two entries (length-changing and same-length replacements in either order, names that are prefixes of each "
